@@ -78,8 +78,80 @@ def run_lease(unit, part):
             s.teardown()
 
 
+def run_sources(unit, part):
+    """Responder backed by each library stream source, including sources that raise mid-stream and paced delivery
+    (delay_between_messages > 0, virtual time): everything the responder emits is judged by the role automaton."""
+    import itertools
+    from datetime import timedelta
+    from mc import monitors, refwire as R
+    from mc.app import P
+    from mc.solo import Solo
+    src, flavour = unit['src_kind'], unit['flavour']
+    for k, raise_at, delay_ms, n0, rns in itertools.product((1, 3), (None, 0, 1, 2), (0, 10), (1, 2, 0x7FFFFFFF), ((), (1,), (2, 2), (0x7FFFFFFF,))):
+        if raise_at is not None and raise_at > k:
+            continue
+        for cancel_at in (None, 0, 1):
+            def make():
+                els = [P(b'e%d' % i) for i in range(k)]
+                delay = timedelta(milliseconds=delay_ms)
+                if src == 'gen':
+                    from rsocket.streams.stream_from_generator import StreamFromGenerator
+
+                    def gen():
+                        for i, e in enumerate(els):
+                            if raise_at == i:
+                                raise RuntimeError('source fails')
+                            yield e, (i == k - 1 and raise_at is None)
+                        if raise_at == k:
+                            raise RuntimeError('source fails')
+
+                    return StreamFromGenerator(gen, delay_between_messages=delay)
+                from rsocket.streams.stream_from_async_generator import StreamFromAsyncGenerator
+
+                async def agen():
+                    for i, e in enumerate(els):
+                        if raise_at == i:
+                            raise RuntimeError('source fails')
+                        yield e, (i == k - 1 and raise_at is None)
+                    if raise_at == k:
+                        raise RuntimeError('source fails')
+
+                return StreamFromAsyncGenerator(agen, delay_between_messages=delay)
+
+            s = Solo('server', flavour, beh={'request_stream': lambda h, p: make()})
+            try:
+                s.peer(R.enc_request(R.REQUEST_STREAM, 1, b'q', n=n0))
+                for i, rn in enumerate(rns):
+                    if cancel_at == i:
+                        s.peer(R.enc_cancel(1))
+                    if delay_ms:
+                        s.advance(0.004 + 0.007 * i)
+                    s.peer(R.enc_request_n(1, rn))
+                if cancel_at is not None and cancel_at >= len(rns):
+                    s.peer(R.enc_cancel(1))
+                s.advance(0.2)
+                v = monitors.wire_legality(s.log, s.ep, 'server', lenient_unknown=True)
+                part.evaluations += 1
+                part.traces += 1
+                part.transitions += 2 + len(rns)
+                oc = tuple((f.type, f.flags & 0xE0) for f in s.sent_on(1))
+                part.state(('sources', src, k, raise_at, delay_ms, oc))
+                part.outcome(oc)
+                if raise_at is not None or delay_ms or cancel_at is not None:
+                    part.nontriv((src, k, raise_at, delay_ms, n0, rns, cancel_at))
+                for rule, sig, detail in v:
+                    part.violate(rule, sig + ' | source=%s%s%s' % (src, '/raises' if raise_at is not None else '', '/paced' if delay_ms else ''), detail,
+                                 {'kind': 'sources', 'unit': unit, 'k': k, 'raise_at': raise_at, 'delay_ms': delay_ms, 'n0': n0, 'rns': list(rns), 'cancel_at': cancel_at})
+            finally:
+                s.teardown()
+    part.sample({'kind': 'sources', 'source': src, 'link': flavour}, limit=1)
+
+
 def make_units(tier):
     units = []
+    for src_kind in ('gen', 'agen'):
+        for flavour in ('tcp', 'msg'):
+            units.append({'src': 'sources', 'src_kind': src_kind, 'flavour': flavour, 'bound': 0, 'name': 'sources', 'shard': [0, 1], 'fs': None})
     for flavour, fs in (('tcp', None), ('msg', 64)):
         for first in (('L', 1), ('L', 2), ('R', 'stream'), ('R', 'channel'), ('R', 'rr')):
             units.append({'src': 'lease', 'flavour': flavour, 'fs': fs, 'first': list(first), 'depth': 4 if tier == 'quick' else 5,
@@ -116,6 +188,8 @@ def scenario_of(unit):
 def run_unit(unit, part):
     if unit.get('src') == 'lease':
         return run_lease(unit, part)
+    if unit.get('src') == 'sources':
+        return run_sources(unit, part)
     dev_explore(scenario_of(unit), unit['bound'], part, shard=tuple(unit['shard']), det_every=200)
 
 
@@ -125,6 +199,13 @@ def scenario_from(name, params):
 
 def replay(rec):
     w = rec['witness']
+    if w.get('kind') == 'sources':
+        from mc.runner import Partial
+        p = Partial()
+        run_sources(w['unit'], p)
+        for v in p.violations.values():
+            print(v.rule, '|', v.detail[:300])
+        return rec['signature'] in p.violations
     if w.get('kind') == 'lease':
         from mc.runner import Partial
         p = Partial()
